@@ -25,7 +25,7 @@ from vf.core import CaseResult, Ctx, Violation, hyp_run, exc_sig
 
 PROP_ID = 'C17'
 LEVEL = 'exploration'
-BUDGET = {'quick': 4000, 'thorough': 120000}
+BUDGET = {'quick': 3200, 'thorough': 120000}
 RULE = (
     'Hypothesis draws: calendar (gregorian/360day/365day/366day), time zone '
     'class (UTC mode, explicit cycle point time zone Z/+01/+0530/-0800/+1245/'
